@@ -173,6 +173,9 @@ pub enum Op {
     /// position in the target variant's `plus` list. `mask` selects which returned removed
     /// fields are observed (by position in `minus`).
     Convert { slot: usize, form: u8, ids: Vec<u64>, mask: Mask },
+    /// a non-returning conversion (form 0 or 1) during which the k-th destructor of an
+    /// instrumented value panics
+    ConvertDropPanic { slot: usize, form: u8, ids: Vec<u64>, k: usize },
     Unpack { slot: usize, mask: Mask },
     Drop { slot: usize },
     Move { from: usize, to: usize },
@@ -225,6 +228,8 @@ pub fn panic_text(p: Box<dyn std::any::Any + Send>) -> String {
         (*s).to_owned()
     } else if p.downcast_ref::<vtypes::InjectedClonePanic>().is_some() {
         "InjectedClonePanic".to_owned()
+    } else if p.downcast_ref::<vtypes::InjectedDropPanic>().is_some() {
+        "InjectedDropPanic".to_owned()
     } else {
         "<non-string panic payload>".to_owned()
     }
@@ -425,6 +430,9 @@ pub struct RunArgs {
     pub threads: bool,
     /// skip the deterministic sweeps
     pub no_sweeps: bool,
+    /// inject destructor panics into non-returning conversions (leaks what Rust itself leaks
+    /// then: not for runs under a leak checker)
+    pub drop_panics: bool,
     /// only episodes are run, no static layout checks output
     pub only_caps: Option<Vec<usize>>,
 }
@@ -450,6 +458,7 @@ impl RunArgs {
             no_serde: args.iter().any(|a| a == "--no-serde"),
             threads: args.iter().any(|a| a == "--threads"),
             no_sweeps: args.iter().any(|a| a == "--no-sweeps"),
+            drop_panics: args.iter().any(|a| a == "--drop-panics"),
             only_caps: get("--caps").map(|c| c.split(',').filter_map(|x| x.parse().ok()).collect()),
             replay: get("--replay").map(|r| {
                 // module:cap:episode
